@@ -217,6 +217,21 @@ def run(chk: common.Check):
     chk.count(1, key=("repeat-models",))
     if len(a1) != len(a3) or any(x[0] != y[0] or abs(x[1] - y[1]) > 1e-9 for x, y in zip(a1, a3)):
         found.append(("repeated-models-change-average", "three identical models give an average different from the single structure", {"single": a1[:3], "tripled": a3[:3]}))
+    # the same with model serial numbers as written by trajectory tools (step numbers: 10000, 20000, 30000; 8-column right-justified serials)
+    for what_m, fmt_m in (("MODEL serials 10000 / 20000 / 30000", lambda k: f"MODEL    {10000 * k:>5d}"), ("MODEL serials in 8 columns", lambda k: f"MODEL {k:>8d}")):
+        txt_m = structures.as_models([fr, fr, fr])
+        for k_ in (1, 2, 3):
+            txt_m = txt_m.replace(f"MODEL     {k_:>4d}", fmt_m(k_), 1)
+        try:
+            r_m = structures.results(txt_m, [])
+            am = [(g["label"], g["pka"], g["dets"]) for g in r_m["AVR"]]
+            nconf = len([c for c in r_m if c != "AVR"])
+            chk.count(1, key=("repeat-models", what_m))
+            if nconf != 3 or len(a1) != len(am) or any(x[0] != y[0] or abs(x[1] - y[1]) > 1e-9 for x, y in zip(a1, am)):
+                found.append(("repeated-models-change-average:model-serials", f"three identical models with {what_m}: {nconf} conformations, average "
+                              f"{'differs from' if nconf == 3 else 'of a merged structure instead of'} the single structure", {"layout": what_m}))
+        except Exception as ex:   # noqa: BLE001
+            found.append(("exception:model-serials", f"three identical models with {what_m}: {type(ex).__name__}: {ex}", {"layout": what_m}))
     # two-chain structure (TER between the chains, last chain without OXT) repeated as MODELs in the three layouts found in the wild
     hp = structures.read("1HPX.pdb")
     ca = [l for l in hp.splitlines() if l[:4] == "ATOM" and l[21] == "A"]
